@@ -15,7 +15,7 @@ from collections import Counter
 VERIF = Path(__file__).resolve().parents[1]
 LEAN = VERIF / "lean"
 REPO = Path(os.environ.get("SMRT_REPO", "/repo"))
-EVID = VERIF / "evidence"
+EVID = Path(os.environ.get("VERIF_EVIDENCE_DIR", VERIF / "evidence"))   # redirected while trying seeded changes
 REPLAYS = EVID / "replays"
 STD_AXIOMS = {"propext", "Classical.choice", "Quot.sound"}
 FORBIDDEN = re.compile(r"\bsorry\b|\badmit\b|^\s*axiom\s|native_decide|bv_decide|implemented_by|\bunsafe\s|maxHeartbeats\s+0\b")
@@ -359,9 +359,10 @@ def write_replay(prop, seed, payload, tag=""):
     payload = dict(payload)
     payload.setdefault("property", prop)
     payload.setdefault("seed", seed)
-    payload["replay_cmd"] = f"bin/check {prop} --replay {path.relative_to(VERIF)}"
+    rel = str(path.relative_to(VERIF)) if VERIF in path.parents else str(path)
+    payload["replay_cmd"] = f"bin/check {prop} --replay {rel}"
     path.write_text(json.dumps(jsonable(payload), indent=1))
-    return str(path.relative_to(VERIF))
+    return rel
 
 
 def write_evidence(prop, tier, seed, coverage, assumptions, wall, violations, level="proof"):
